@@ -1637,14 +1637,14 @@ func raceProd(rng *rand.Rand, kind string, rcap int) (plan []act) {
 		}
 		r := act{Act: qa.Act{Op: "race"}}
 		closing := round == 0 && mode == 1
-		for c, n := 1, 2+rng.Intn(2); c <= n; c++ { // two or three consumers: the second one may find the queue empty
+		for c, n := 1, 2; c <= n; c++ { // two consumers: the second one may find the queue empty (more only costs TLC time)
 			// beside a close only PopAnyway still makes room (for a producer that must NOT use it)
 			r.Acts, r.RC = append(r.Acts, qa.Act{Op: "pop", Any: closing || rng.Intn(2) == 0}), append(r.RC, c)
 		}
 		if closing {
 			r.Acts, r.RC = append(r.Acts, qa.Act{Op: "close"}), append(r.RC, 0)
 		}
-		if k < nProd && rng.Intn(3) == 0 {
+		if k < nProd && !closing && rng.Intn(4) == 0 {
 			r.Acts, r.RC = append(r.Acts, qa.Act{Op: "paddw", Lane: "req", V: next()}), append(r.RC, k+1)
 		}
 		if len(r.Acts) < 2 {
